@@ -1,10 +1,13 @@
 //! C01: the real client (`client_main_inner`) and the real server (`run_listener`) on loopback,
 //! local clients and targets driven by the harness.
 //!
+//! (UDP cases, SOCKS5: variant + 16 = the association goes through a second SOCKS listener on the dual-stack wildcard
+//!  address [::], reached over IPv4, so that the relay sees its client as an IPv4-mapped address)
 //! TCP case:  1 1 entry variant nconn (shape nl l_1.. nt t_1..)*
 //!   entry 0 TCP remote, 1 Unix-socket remote, 2 SOCKS5 CONNECT (variant 0 IPv4, 1 domain name),
 //!         3 SOCKS4, 4 SOCKS4a, 5 HTTP CONNECT; variant + 2 (entries 2-5): an eager local client, which sends its
-//!         first payload bytes in the same write as the request, before it has read the proxy's reply
+//!         first payload bytes in the same write as the request, before it has read the proxy's reply;
+//!         variant + 8 (entries 2-5): the request reaches the listener in several TCP segments with pauses between them
 //!   shape 0 local writes, half-closes, then reads to EOF; target reads to EOF, then answers, closes
 //!         1 target writes, half-closes, reads to EOF; local reads to EOF, then writes, closes
 //!         2 both write at once, each half-closes when done, both read to EOF
@@ -515,6 +518,8 @@ struct V6 {
     target_udp: u16,
     tcp_port: u16,
     udp_port: u16,
+    /// a second SOCKS listener, on the dual-stack wildcard address [::]
+    socks_port: u16,
 }
 
 async fn free_tcp_port() -> u16 {
@@ -608,7 +613,7 @@ impl World {
                         let _ = tu6.send_to(&reply, from).await;
                     }
                 });
-                v6 = Some(V6 { target_tcp: t6, target_udp: u6, tcp_port: free_tcp_port().await, udp_port: free_udp_port().await });
+                v6 = Some(V6 { target_tcp: t6, target_udp: u6, tcp_port: free_tcp_port().await, udp_port: free_udp_port().await, socks_port: free_tcp_port().await });
             }
             let refused = free_tcp_port().await;
             // the real server
@@ -675,6 +680,7 @@ impl World {
             if let Some(v) = v6 {
                 remotes.push(format!("127.0.0.1:{}:[::1]:{}", v.tcp_port, v.target_tcp));
                 remotes.push(format!("127.0.0.1:{}:[::1]:{}/udp", v.udp_port, v.target_udp));
+                remotes.push(format!("[::]:{}:socks", v.socks_port));
             }
             let args: &'static ClientArgs = Box::leak(Box::new(ClientArgs {
                 server: ServerUrl::from_str(&format!("ws://127.0.0.1:{rport}/ws")).unwrap(),
@@ -698,15 +704,17 @@ impl World {
         Self { rt, tcp_port, tcp_refused_remote, uds, socks_port, http_port, udp_port, target_tcp, target_udp, target_udp2, refused, v6, scripts, obs, udp_seen, _tmp: tmp, counter: std::cell::Cell::new(1) }
     }
 
-    /// open a local connection through the given entry point towards the target (or the refusing port)
+    /// open a local connection through the given entry point towards the target (or the refusing port);
+    /// variant bit 8: the request reaches the listener in several TCP segments with pauses between them
     async fn open(&self, entry: u64, variant: u64, refused: bool, eager: &[u8], v6: Option<V6>) -> Option<Box<dyn Io>> {
         let tport = if refused { self.refused } else if let Some(v) = v6 { v.target_tcp } else { self.target_tcp };
+        let frag = variant & 8 != 0;
         match entry {
             0 => Some(Box::new(TcpStream::connect(("127.0.0.1", if refused { self.tcp_refused_remote } else if let Some(v) = v6 { v.tcp_port } else { self.tcp_port })).await.ok()?)),
             1 => Some(Box::new(UnixStream::connect(&self.uds).await.ok()?)),
             2 => {
                 let mut s = TcpStream::connect(("127.0.0.1", self.socks_port)).await.ok()?;
-                s.write_all(&[5, 1, 0]).await.ok()?;
+                send_request(&mut s, &[5, 1, 0], frag).await?;
                 let mut b = [0u8; 2];
                 s.read_exact(&mut b).await.ok()?;
                 if b != [5, 0] {
@@ -716,7 +724,7 @@ impl World {
                 if v6.is_some() {
                     req.push(4);
                     req.extend(std::net::Ipv6Addr::LOCALHOST.octets());
-                } else if variant == 0 {
+                } else if variant & 1 == 0 {
                     req.extend([1, 127, 0, 0, 1]);
                 } else {
                     req.push(3);
@@ -725,7 +733,7 @@ impl World {
                 }
                 req.extend(tport.to_be_bytes());
                 req.extend(eager);
-                s.write_all(&req).await.ok()?;
+                send_request(&mut s, &req, frag).await?;
                 let mut rep = [0u8; 10];
                 s.read_exact(&mut rep).await.ok()?;
                 if rep[0] != 5 || rep[1] != 0 {
@@ -745,7 +753,7 @@ impl World {
                     req.extend(b"user\0localhost\0");
                 }
                 req.extend(eager);
-                s.write_all(&req).await.ok()?;
+                send_request(&mut s, &req, frag).await?;
                 let mut rep = [0u8; 8];
                 s.read_exact(&mut rep).await.ok()?;
                 if rep[1] != 0x5a {
@@ -759,7 +767,7 @@ impl World {
                 let req = format!("CONNECT {host}:{tport} HTTP/1.1\r\nHost: {host}:{tport}\r\n\r\n");
                 let mut req = req.into_bytes();
                 req.extend(eager);
-                s.write_all(&req).await.ok()?;
+                send_request(&mut s, &req, frag).await?;
                 let mut head = Vec::new();
                 let mut b = [0u8; 1];
                 while !head.ends_with(b"\r\n\r\n") {
@@ -851,7 +859,7 @@ impl World {
         let eager = variant & 2 != 0 && entry >= 2;
         // variant bit 2 (entries 0, 2, 5): the target is reached over the IPv6 loopback
         let v6 = if variant & 4 != 0 && matches!(entry, 0 | 2 | 5) { self.v6 } else { None };
-        let Some(s) = tokio::time::timeout(TMO, self.open(entry, variant & 1, shape == 5, if eager { &tagb } else { &[] }, v6)).await.ok().flatten() else {
+        let Some(s) = tokio::time::timeout(TMO, self.open(entry, variant & 9, shape == 5, if eager { &tagb } else { &[] }, v6)).await.ok().flatten() else {
             // a refused target may already show as a failed entry handshake: the connection is closed
             return if shape == 5 { vec![0, 1, 1, 0, 1, 0] } else { vec![0, 0, 9, 0, 0, 9] };
         };
@@ -1086,16 +1094,30 @@ impl World {
         vec![mine, foreign, from_ok, hdr_ok, target_got]
     }
 
-    async fn assoc(&self) -> Option<(TcpStream, SocketAddr)> {
-        let mut s = TcpStream::connect(("127.0.0.1", self.socks_port)).await.ok()?;
+    /// `dual`: through the SOCKS listener on [::] (reached over IPv4), whose relay socket is dual-stack too
+    async fn assoc(&self, dual: bool) -> Option<(TcpStream, SocketAddr)> {
+        let port = match (dual, self.v6) {
+            (true, Some(v)) => v.socks_port,
+            _ => self.socks_port,
+        };
+        let mut s = TcpStream::connect(("127.0.0.1", port)).await.ok()?;
         s.write_all(&[5, 1, 0]).await.ok()?;
         let mut b = [0u8; 2];
         s.read_exact(&mut b).await.ok()?;
         s.write_all(&[5, 3, 0, 1, 0, 0, 0, 0, 0, 0]).await.ok()?;
         let mut rep = [0u8; 4];
         s.read_exact(&mut rep).await.ok()?;
-        if rep[1] != 0 || rep[3] != 1 {
+        if rep[1] != 0 || (rep[3] != 1 && rep[3] != 4) {
             return None;
+        }
+        if rep[3] == 4 {
+            // the wildcard address: RFC 1928 clients then use the address of the proxy they connected to
+            let mut a = [0u8; 18];
+            s.read_exact(&mut a).await.ok()?;
+            if a[..16] != [0u8; 16] {
+                return None;
+            }
+            return Some((s, ([127, 0, 0, 1], u16::from_be_bytes([a[16], a[17]])).into()));
         }
         let mut a = [0u8; 6];
         s.read_exact(&mut a).await.ok()?;
@@ -1106,7 +1128,9 @@ impl World {
     async fn udp_case(&self, c: &[u64], base: u32) -> Vec<u64> {
         // variant + 8: staggered start (client k begins 200 ms after client k-1, i.e. after the earlier clients' first
         // replies have come back) instead of all clients at once
+        // variant + 16 (SOCKS5): the association is made through the listener on the dual-stack wildcard address
         let (entry, shared, stagger, variant, ncl) = (c[0], c[1], c[2] & 8 != 0, c[2] & 7, c[3] as usize);
+        let dual = c[2] & 16 != 0;
         let mut i = 4;
         let mut specs = vec![];
         for _ in 0..ncl {
@@ -1122,7 +1146,7 @@ impl World {
         if entry == 1 {
             let n_assoc = if shared == 1 { 1 } else { ncl };
             for _ in 0..n_assoc {
-                let Some((s, a)) = self.assoc().await else { return vec![999_997] };
+                let Some((s, a)) = self.assoc(dual).await else { return vec![999_997] };
                 controls.push(s);
                 relays.push(a);
             }
@@ -1206,7 +1230,7 @@ pub fn generate(a: &Args, out: &mut Out) {
     if !a.mode.contains("random-only") {
         let mut evs = vec![(0u64, 0u64), (1, 0), (2, 0), (2, 1), (3, 0), (4, 0), (5, 0), (2, 2), (2, 3), (3, 2), (4, 2), (5, 2)];
         if w.v6.is_some() {
-            evs.extend([(0, 4), (2, 4), (2, 6), (5, 4), (5, 6)]);
+            evs.extend([(0, 4), (2, 4), (2, 6), (5, 4), (5, 6), (2, 8), (2, 9), (3, 8), (4, 8), (5, 8), (3, 10), (4, 10)]);
         }
         for (entry, variant) in evs {
             for shape in 0..10u64 {
@@ -1247,13 +1271,17 @@ pub fn generate(a: &Args, out: &mut Out) {
             emit(out, vec![1, 2, 0, 0, 4, 2, 3, 10, 600, 1400, 2, 7, 64]);
             emit(out, vec![1, 2, 1, 1, 4, 2, 3, 10, 600, 1400, 2, 7, 64]);
             emit(out, vec![1, 2, 1, 0, 4, 1, 4, 10, 600, 1400, 9000]);
+            // SOCKS5 associations through the listener on the dual-stack wildcard address, used over IPv4
+            emit(out, vec![1, 2, 1, 0, 16, 2, 3, 10, 600, 1400, 2, 7, 64]);
+            emit(out, vec![1, 2, 1, 1, 17, 1, 4, 10, 600, 1400, 9000]);
+            emit(out, vec![1, 2, 1, 0, 26, 3, 2, 10, 600, 3, 6, 7, 1400, 1, 64]);
         }
     }
     for _ in 0..a.n {
         if rng.chance(3, 4) {
-            let (mut entry, mut variant) = rng.pick(&[(0u64, 0u64), (1, 0), (2, 0), (2, 1), (3, 0), (4, 0), (5, 0), (2, 2), (2, 3), (3, 2), (4, 2), (5, 2), (0, 4), (2, 4), (2, 6), (5, 4), (5, 6)]);
+            let (mut entry, mut variant) = rng.pick(&[(0u64, 0u64), (1, 0), (2, 0), (2, 1), (3, 0), (4, 0), (5, 0), (2, 2), (2, 3), (3, 2), (4, 2), (5, 2), (0, 4), (2, 4), (2, 6), (5, 4), (5, 6), (2, 8), (2, 9), (3, 8), (4, 8), (5, 8), (3, 10), (4, 10)]);
             if variant & 4 != 0 && w.v6.is_none() {
-                (entry, variant) = (entry, variant & 3);
+                (entry, variant) = (entry, variant & 11);
             }
             let nconn = if rng.chance(1, 3) { 2 + rng.below(4) } else { 1 };
             let mut c = vec![1, 1, entry, variant, nconn];
@@ -1278,7 +1306,7 @@ pub fn generate(a: &Args, out: &mut Out) {
         } else {
             let entry = rng.below(2);
             let shared = rng.below(2);
-            let variant = (if w.v6.is_some() && rng.chance(1, 5) { 4 } else if entry == 1 { rng.below(4) } else { rng.below(2) }) + if rng.chance(1, 3) { 8 } else { 0 };
+            let variant = (if w.v6.is_some() && rng.chance(1, 5) { 4 } else if entry == 1 { rng.below(4) } else { rng.below(2) }) + if rng.chance(1, 3) { 8 } else { 0 } + if entry == 1 && w.v6.is_some() && rng.chance(1, 5) { 16 } else { 0 };
             let ncl = 1 + rng.below(4);
             let mut c = vec![1, 2, entry, shared, variant, ncl];
             for _ in 0..ncl {
@@ -1295,4 +1323,26 @@ pub fn generate(a: &Args, out: &mut Out) {
         let r = w.rt.block_on(h).unwrap_or_else(|_| vec![999_998]);
         out.emit(&c, &r);
     }
+}
+
+/// write a proxy request, either in one piece or (frag) in several TCP segments: 1, 2, 2 octets, then the halves of the
+/// rest, with a pause after each, so that the listener never finds a whole field group in one read
+async fn send_request(s: &mut TcpStream, req: &[u8], frag: bool) -> Option<()> {
+    if !frag {
+        return s.write_all(req).await.ok();
+    }
+    let _ = s.set_nodelay(true);
+    let mut off = 0;
+    let rest = req.len().saturating_sub(5);
+    for n in [1, 2, 2, rest / 2, rest - rest / 2] {
+        let n = n.min(req.len() - off);
+        if n == 0 {
+            continue;
+        }
+        s.write_all(&req[off..off + n]).await.ok()?;
+        s.flush().await.ok()?;
+        off += n;
+        tokio::time::sleep(Duration::from_millis(25)).await;
+    }
+    Some(())
 }
